@@ -1,13 +1,18 @@
 import BreezyVerif.Lemmas.C02Check
 import BreezyVerif.Lemmas.C02Lin
+import BreezyVerif.Lemmas.C02Dom
+import BreezyVerif.Lemmas.C02Book
+import BreezyVerif.Lemmas.C02Indep
 /-
 C02 — per-file last-changed revisions and per-file parents.
 
 All theorems are about `build h`, the repository obtained by recording the
 commits of an arbitrary history `h` (newest first; any length, any number of
 parents per commit, any trees) under the hypothesis `hist h`: every commit has a
-fresh revision id, its parents are recorded (no ghosts) and its tree has one
-entry per file id.  `hist` is decidable; `exHist` below satisfies it.
+revision id that is neither recorded nor named as a parent so far (nor by the
+commit itself), and its tree has one entry per file id.  Parents need NOT be
+recorded: an absent parent is a ghost, for which the code (and the model) use
+the empty tree.  `hist` is decidable; `exHist` and `exGhost` below satisfy it.
 -/
 namespace BreezyVerif.C02
 
@@ -84,7 +89,7 @@ theorem lastchanged_fresh (h : List Commit) (c : Commit) (hh : hist (c :: h)) (f
       ¬ ∃ x, heads (textsOf (build h)) f (candidates (build h) c.parents f) = [x] ∧
         (entryIn (build h) f x).map (·.attr) = some e.attr := by
   have w := build_WF h hh.1
-  have hid := hh.2.1
+  have hid : c.id ∉ ids (build h) := fun hx => hh.2.1 (id_mem_mentioned hx)
   have hl : (mkRec (build h) c).inv.lookup f = some e := by
     rw [← entryIn_cons_self (mkRec (build h) c) (build h) f]; exact he
   obtain ⟨a, _, hea⟩ := mkRec_entry hl
@@ -116,7 +121,7 @@ theorem text_key_iff_fresh (h : List Commit) (c : Commit) (hh : hist (c :: h)) (
     (e : Entry) (he : entryIn (build (c :: h)) f c.id = some e) :
     (∃ ps, ((f, c.id), ps) ∈ textsOf (build (c :: h))) ↔ e.rev = c.id := by
   have w := build_WF h hh.1
-  have hid := hh.2.1
+  have hid : c.id ∉ ids (build h) := fun hx => hh.2.1 (id_mem_mentioned hx)
   have hl : (mkRec (build h) c).inv.lookup f = some e := by
     rw [← entryIn_cons_self (mkRec (build h) c) (build h) f]; exact he
   constructor
@@ -180,6 +185,144 @@ theorem check_passes (h : List Commit) (hh : hist h) :
       lookup_of_mem_nodup (inv_keys_nodup h hh r hr) ht
     simp [w.sound r hr t.1 t.2 hl]
 
+
+/-! ### revision ancestry anchors the per-file graph -/
+
+/-- revision ancestry of the repository of any history is a strict partial
+order (ghost parents included as leaves) -/
+theorem revision_ancestry_strict (h : List Commit) (hh : hist h) :
+    (∀ x y z, x ∈ ranc (build h) z → y ∈ ranc (build h) x → y ∈ ranc (build h) z) ∧
+      ∀ x, x ∉ ranc (build h) x :=
+  ⟨fun _ _ _ hx hy => ranc_trans (build_Fresh h hh) hx hy, ranc_irrefl (build_Fresh h hh)⟩
+
+/-- **Per-file ancestry is contained in revision ancestry**: whatever the
+per-file graph calls an ancestor of the text `(f, x)` is a revision-graph
+ancestor of `x`.  So the `heads` of the other theorems are anchored to the
+revision DAG, not only to the graph the commit builder wrote itself. -/
+theorem fanc_sub_ranc (h : List Commit) (hh : hist h) (f : FileId) (x y : Rev) :
+    y ∈ fanc (textsOf (build h)) f x → y ∈ ranc (build h) x :=
+  fanc_sub_ranc_build h hh f x y
+
+/-- every stored per-file parent of a text `(f, r)` is a strict revision-graph
+ancestor of `r` -/
+theorem perfile_parents_are_ancestors (h : List Commit) (hh : hist h) :
+    ∀ r ∈ build h, ∀ t ∈ r.texts, ∀ p ∈ t.2, p ∈ ranc (build h) r.id := by
+  intro r hr t ht p hp
+  have hk : ((t.1, r.id), t.2) ∈ textsOf (build h) := by
+    simp only [textsOf, List.mem_flatMap, List.mem_map]
+    exact ⟨r, hr, t, ht, rfl⟩
+  exact text_edge_ranc h hh (t.1, r.id) t.2 hk p hp
+
+/-- per-file ancestry is a strict partial order -/
+theorem perfile_ancestry_strict (h : List Commit) (hh : hist h) (f : FileId) :
+    (∀ x y z, x ∈ fanc (textsOf (build h)) f z → y ∈ fanc (textsOf (build h)) f x →
+      y ∈ fanc (textsOf (build h)) f z) ∧
+      ∀ x, x ∉ fanc (textsOf (build h)) f x :=
+  ⟨fun x y z => fanc_trans_build h hh f x y z, fanc_irrefl_build h hh f⟩
+
+/-- **Single parent inside any DAG.**  For a commit with exactly one parent `p`
+(present or ghost; whatever the rest of the history looks like) the entry of
+`f` names the new revision iff the attributes of `f` differ from those in `p`
+(or `p` does not hold `f`). -/
+theorem lastchanged_single_parent (h : List Commit) (c : Commit) (hh : hist (c :: h)) (p : Rev)
+    (hp : c.parents = [p]) (f : FileId) (e : Entry)
+    (he : entryIn (build (c :: h)) f c.id = some e) :
+    e.rev = c.id ↔ (entryIn (build h) f p).map (·.attr) ≠ some e.attr := by
+  have w := build_WF h hh.1
+  have hid : c.id ∉ ids (build h) := fun hx => hh.2.1 (id_mem_mentioned hx)
+  have hl : (mkRec (build h) c).inv.lookup f = some e := by
+    rw [← entryIn_cons_self (mkRec (build h) c) (build h) f]; exact he
+  obtain ⟨a, _, hea⟩ := mkRec_entry hl
+  have hattr : e.attr = a := by rw [hea]; exact recordOne_attr _ _ _ _
+  cases hep : entryIn (build h) f p with
+  | none =>
+    rw [hea, recordOne_single_none a hp hep]
+    simp
+  | some ep =>
+    have hr := recordOne_single_some (c := c) a hp hep
+    rw [← hea] at hr
+    obtain ⟨r, hr1, _, hlr⟩ := entryIn_mem hep
+    have hne : ep.rev ≠ c.id := fun e1 => hid (e1 ▸ w.revs r hr1 f ep hlr)
+    simp only [Option.map_some, ne_eq, Option.some.injEq, hattr]
+    by_cases hq : ep.attr = a
+    · rw [if_pos hq] at hr
+      constructor
+      · intro h1; exact absurd (hr ▸ h1) hne
+      · intro h1; exact absurd hq h1
+    · rw [if_neg hq] at hr
+      exact ⟨fun _ => hq, fun _ => hr⟩
+
+/-- **A carried-over last-changed revision dominates every parent's version**
+(the DAG reading of "most recent revision in which the file changed").  When
+the entry of `f` recorded by commit `c` names an older revision `x`, then (1)
+some parent of `c` holds that very entry, and (2) the version of `f` in *every*
+parent of `c` is either `x` or a strict per-file **and** revision-graph
+ancestor of `x`: no parent knows a change of `f` that `x` does not include.
+(`lastchanged_fresh` gives the converse: if that is the case and the attributes
+are those of `x`, the entry is carried over.) -/
+theorem lastchanged_carried_dominates (h : List Commit) (c : Commit) (hh : hist (c :: h))
+    (f : FileId) (e : Entry) (he : entryIn (build (c :: h)) f c.id = some e)
+    (hne : e.rev ≠ c.id) :
+    (∃ q ∈ c.parents, entryIn (build h) f q = some e) ∧
+      ∀ q ∈ c.parents, ∀ e', entryIn (build h) f q = some e' →
+        e'.rev = e.rev ∨
+          (e'.rev ∈ fanc (textsOf (build h)) f e.rev ∧ e'.rev ∈ ranc (build h) e.rev) := by
+  have hl : (mkRec (build h) c).inv.lookup f = some e := by
+    rw [← entryIn_cons_self (mkRec (build h) c) (build h) f]; exact he
+  obtain ⟨a, _, hea⟩ := mkRec_entry hl
+  rcases recordOne_cases (build h) c f a with ⟨x, pe, hx, hw, _, hrec⟩ | ⟨hrec, _⟩
+  · have hepe : e = pe := by rw [hea, hrec]
+    obtain ⟨hpx, q, hq, hqe⟩ := entryWithRev_some hw
+    refine ⟨⟨q, hq, hepe ▸ hqe⟩, ?_⟩
+    intro q' hq' e' he'
+    by_cases heq : e'.rev = e.rev
+    · exact Or.inl heq
+    · right
+      have hc : e'.rev ∈ candidates (build h) c.parents f := by
+        simp only [candidates, mem_dedup, List.mem_map, candEntries, List.mem_filterMap]
+        exact ⟨e', ⟨q', hq', he'⟩, rfl⟩
+      have hxe : x = e.rev := by rw [hepe, hpx]
+      have hd := single_head_dominates (fun a b c hab hbc => fanc_trans_build h hh.1 f b a c hbc hab)
+        (fanc_irrefl_build h hh.1 f) hx e'.rev hc (by rw [hxe]; exact heq)
+      rw [hxe] at hd
+      exact ⟨hd, fanc_sub_ranc_build h hh.1 f _ _ hd⟩
+  · exact absurd (by rw [hea, hrec]) hne
+
+/-! ### the literal bookkeeping of `record_iter_changes` -/
+
+/-- **`merged_ids` / `parent_entries` / `changes` / `unchanged_merged` compute
+`recordOne`.**  For a file id `f` that the committed tree holds with attributes
+`a`, the literal transcription of the code's bookkeeping (`codeRecordOne`: only
+ids that `iter_changes` reports or whose entry in a later parent is not
+identical to the basis entry are processed, candidates `merged_ids.get(f,
+[basis revision])`, carry-over source `parent_entries[f].get(heads[0])`, the
+synthetic change of `unchanged_merged`, otherwise the basis entry is kept)
+produces exactly the entry and text parents of `recordOne` — provided
+`iter_changes` reports `f` iff its attributes differ from the basis entry's
+(`differs`; the harness checks this hypothesis on every real commit). -/
+theorem bookkeeping_refines (h : List Commit) (hh : hist h) (c : Commit) (f : FileId) (a : Attr) :
+    codeRecordOne (build h) c f a (differs (build h) c f a)
+      = .entry (recordOne (build h) c f a).1 (recordOne (build h) c f a).2 :=
+  codeRecordOne_eq (build_WF h hh) c f a
+
+/-- whole histories: recording every commit through the literal bookkeeping,
+with reported-id sets that satisfy "reported iff differs" (`repsOk`), builds
+the same repository as `build` -/
+theorem bookkeeping_refines_history (hs : List (Commit × List FileId))
+    (hh : hist (hs.map (·.1))) (hr : repsOk hs = true) :
+    buildB hs = some (build (hs.map (·.1))) :=
+  buildB_eq hs hh hr
+
+/-- **File ids are recorded independently.**  Restricting every committed tree
+of a history to a set `k` of file ids restricts every recorded inventory and the
+stored per-file graph to `k` and changes nothing else: last-changed revisions
+and per-file parents of the kept ids are the same.  (No hypothesis.  Used for
+the non-rich-root formats, where the root directory is not a text key: the
+history without the root is recorded like the history with it.) -/
+theorem perfile_independence (k : FileId → Bool) (h : List Commit) :
+    build (h.map (keepCommit k)) = (build h).map (keepRec k) :=
+  build_keep k h
+
 /-! ### non-vacuity -/
 
 private def root : FileId × Attr := (1, ⟨0, 0, .dir⟩)
@@ -199,5 +342,40 @@ example : textsOf (build exHist)
     = [((2, 4), [2, 3]), ((2, 3), [1]), ((2, 2), [1]), ((1, 1), []), ((2, 1), [])] := by decide
 example : (entryIn (build exHist) 2 5).map (·.rev) = some 4 := by decide
 example : linear (exHist.drop 3) = true ∧ linLast (exHist.drop 3) 2 = some 2 := by decide
+-- single parent inside the DAG: r3 has the single parent r1 and changes the file
+example : (exHist.drop 2).head?.map (·.parents) = some [1] ∧
+    (entryIn (build (exHist.drop 2)) 2 3).map (·.rev) = some 3 := by decide
+-- carried over in a merge: r5 names r4 for the file; the other parent's version r3 is a
+-- per-file and a revision ancestor of r4
+example : (entryIn (build exHist) 2 5).map (·.rev) = some 4 ∧
+    (entryIn (build (exHist.drop 1)) 2 3).map (·.rev) = some 3 ∧
+    3 ∈ fanc (textsOf (build (exHist.drop 1))) 2 4 ∧ 3 ∈ ranc (build (exHist.drop 1)) 4 := by decide
+-- the bookkeeping hypothesis is satisfiable with non-trivial report sets: in r5 nothing
+-- differs from the basis r4 (the file is in `merged_ids`: unchanged_merged), in r4 nothing
+-- differs from the basis r2 either, r3 and r2 report the file, r1 reports everything
+def exReps : List (Commit × List FileId) :=
+  exHist.zip [[], [], [2], [2], [1, 2]]
+example : hist (exReps.map (·.1)) ∧ repsOk exReps = true := by decide
+example : (buildB exReps).map textsOf = some (textsOf (build exHist)) := by decide
+
+-- leaving the root (file id 1) out: the file's history is unchanged
+example : textsOf (build (exHist.map (keepCommit (· != 1))))
+    = [((2, 4), [2, 3]), ((2, 3), [1]), ((2, 2), [1]), ((2, 1), [])] := by decide
+
+/-- ghost parents: r2's basis `8` is a ghost (everything is new against the empty
+tree), r3 merges r1 and r2 with a third, ghost, parent `9`; r4 is a child of r3 -/
+def exGhost : List Commit :=
+  [ ⟨4, [3], [root, (2, ⟨1, 1, .file false 7⟩)]⟩,
+    ⟨3, [1, 2, 9], [root, (2, ⟨1, 1, .file false 7⟩)]⟩,
+    ⟨2, [8], [root, (2, ⟨1, 1, .file false 6⟩)]⟩,
+    ⟨1, [], [root, (2, ⟨1, 1, .file false 5⟩)]⟩ ]
+
+example : hist exGhost := by decide
+example : textsOf (build exGhost)
+    = [((1, 3), [1, 2]), ((2, 3), [1, 2]), ((1, 2), []), ((2, 2), []), ((1, 1), []), ((2, 1), [])] := by
+  decide
+example : (entryIn (build exGhost) 2 4).map (·.rev) = some 3 ∧ 9 ∈ ranc (build exGhost) 4 := by decide
+-- taking a named ghost id later is what `hist` excludes
+example : ¬ hist (⟨9, [4], [root]⟩ :: exGhost) := by decide
 
 end BreezyVerif.C02
